@@ -33,7 +33,15 @@ MANIFEST = {
             "successor(current); the knowledge covers every account-change host and ACL router once PLANNING has run, preserved by both password-"
             "change updates; ACL index in range), hence it reaches every next execution slot without escape clause; the same holds assuming only what the simulator's "
             "two response construction sites give (do-nothing answered success; a successful remote login carries ip_address/username — tied by C19_gen_resp_wf_sites and "
-            "checked on every real response of the scenario sweep; nothing assumed of failed responses: in PLANNING the looked-back action is always a do-nothing). RandomAgent returns the sampled entry of its action map. "
+            "checked on every real response of the scenario sweep; nothing assumed of failed responses: in PLANNING the looked-back action is always a do-nothing). "
+            "A CONSTRUCTED TAP001 NEVER RAISES either (C19_tap1_validated_never_raises_sim: every draw / response sequence of any length with the repeat_scan draw in range and "
+            "well-shaped scan data (ScanSimOk: {live_hosts: list} or host->protocol->ports, tied to the three NMAP response sites and to every use of the data in TAP001 by "
+            "C19_gen_scan_resp_sites and checked on every real scan response of the sweep); invariant: a scan in progress has a remembered timestamp, all remembered timestamps "
+            "index the history). RandomAgent returns the sampled entry of its action map. "
+            "PeriodicAgent.get_action with _set_next_execution_timestep, ProbabilisticAgent.get_action and the probability-vector construction (ProbabilisticAgent.probabilities) are "
+            "TRANSLATED statement by statement (Gen/AgentsGet.lean: dict subscripts, comprehensions, append loops, values() in insertion order) and proved equal to the model on every "
+            "table / state / draw (C19_gen_prob_vector: the vector is by key for ANY written key order; C19_gen_prob_get_action; C19_gen_periodic_get_action); a vector in written order is "
+            "a refuted theorem and Lean's evaluation of the translated method on all written orders of up to 4 keys yields the counter-model, replayed on the real agent. "
             "The control methods _tap_outcome_handler, _tap_start, _tap_return_handler, _agent_trial_handler and both _progress_kill_chain are TRANSLATED "
             "statement by statement (Gen/AgentsCtl.lean) and proved equal to the model functions on every state (C19_gen_ctl_*: a meaning-preserving "
             "rewrite keeps them). Tie: enums, dispatch order, comparators, defaults, the "
